@@ -104,7 +104,9 @@ func ShapesFor(f Field, c *Counter, gob bool) []Shaped {
 		}
 		return out
 	case KDur:
-		return []Shaped{{"pos", reflect.ValueOf(3*time.Hour + 5*time.Second)}, {"neg", reflect.ValueOf(-90 * time.Second)}, {"days", reflect.ValueOf(50 * time.Hour)}, {"sec", reflect.ValueOf(7 * time.Second)}}
+		return []Shaped{{"pos", reflect.ValueOf(3*time.Hour + 5*time.Second)}, {"neg", reflect.ValueOf(-90 * time.Second)}, {"days", reflect.ValueOf(50 * time.Hour)}, {"sec", reflect.ValueOf(7 * time.Second)},
+			// round values: their lexical forms leave whole sections out (P1D has no time section, PT1H no date section)
+			{"day", reflect.ValueOf(24 * time.Hour)}, {"neg-days", reflect.ValueOf(-48 * time.Hour)}, {"hour", reflect.ValueOf(time.Hour)}, {"minute", reflect.ValueOf(time.Minute)}, {"days26", reflect.ValueOf(26 * 24 * time.Hour)}}
 	case KMime:
 		v := reflect.New(ft).Elem()
 		v.SetString("text/markdown")
